@@ -67,6 +67,7 @@ def run(ctx):
     ctx.guard(rule_e, ctx, ix)
     ctx.guard(rule_f, ctx, ix)
     ctx.guard(rule_g, ctx, ix)
+    ctx.guard(rule_h, ctx, ix)
 
 
 def _reaches(ix, cls, handler_src, target, depth=0):
@@ -563,3 +564,24 @@ def rule_g(ctx, ix):
                            where=where(f, tests[0]), path=cfg.guards_on_path(list(bad)) if bad else None)
     if n < 5:
         raise AnalysisError('C18.g: only %d change detectors found in the viewer states' % n)
+
+
+def rule_h(ctx, ix):
+    """"Does the viewer already show this dataset / subset?" is asked by identity: two subsets of different datasets that share a
+    selection and a style compare equal (Subset.__eq__), and the second must still get its own layer."""
+    R = 'C18.h'
+    ctx.describe(R, 'membership of a layer in the artist container is decided by identity, not by equality', floor=1)
+    c = ix.cls('glue.core.layer_artist.LayerArtistContainer')
+    f = c.resolve_func('__contains__')
+    if f is None:
+        raise AnalysisError('LayerArtistContainer.__contains__ vanished')
+    item = f.params[1]
+    ident = [x for x in ast.walk(f.node) if isinstance(x, ast.Compare) and isinstance(x.ops[0], (ast.Is, ast.IsNot)) and
+             item in [unparse(x.left), unparse(x.comparators[0])]]
+    by_eq = [x for x in ast.walk(f.node) if isinstance(x, ast.Compare) and isinstance(x.ops[0], (ast.In, ast.NotIn, ast.Eq, ast.NotEq)) and
+             item in [unparse(x.left), unparse(x.comparators[0])]]
+    by_eq += [x for x in calls_in(f.node) if call_name(x) in ('index', 'count') and x.args and unparse(x.args[0]) == item]
+    ctx.ob(R, f.construct, 'the layer is looked for with `is`', bool(ident) and not by_eq,
+           detail='LayerArtistContainer.__contains__ compares by equality (`%s`): plain subsets of two datasets that share one selection '
+                  'object and have equal styles compare equal, so the viewer takes the second for a duplicate and creates no layer for it'
+                  % (unparse(by_eq[0]) if by_eq else 'no identity test'), where=f.where)
